@@ -312,6 +312,23 @@ def run(chk):
     else:
         chk.violation("C11.closing", closes[0] if closes else cf, K.short(closes[0], 60) if closes else "send_frame(CLOSE)", "self._closing = True; async with self._send_lock: send_frame(CLOSE)",
                       "the Close frame is written without the send lock and _closing is set only afterwards: a large compressed message still in the executor (or a small one queued on the lock) is written *after* Close - the peer, which stops reading at Close, loses it although send_bytes() returned normally")
+    # a frame that passed the closing test joins the send-lock queue in the same synchronous step: a task that takes the lock must start eagerly
+    spawns = [c for c in prog.calls_in(sf.node) if norm.raw(c.func) in ("asyncio.Task", "asyncio.create_task", "asyncio.ensure_future", "loop.create_task", "asyncio.get_running_loop().create_task", "self._loop.create_task")
+              or (isinstance(c.func, ast.Attribute) and c.func.attr == "create_task")]
+    nsp = 0
+    for c in spawns:
+        nsp += 1
+        kw = {k.arg: k.value for k in c.keywords}
+        eager = norm.raw(c.func) == "asyncio.Task" and isinstance(kw.get("eager_start"), ast.Constant) and kw["eager_start"].value is True
+        old = PC.has_lit(PC.pc(c), [("sys.version_info >= (3, 12)", False), ("sys.version_info < (3, 12)", True)], True) is not None
+        if eager:
+            chk.ok("C11.closing", c, "the shielded send task starts eagerly: it queues on the send lock before send_frame() can be overtaken by close()")
+        elif old:
+            chk.ok("C11.closing", c, "fallback for interpreters without eager tasks (< 3.12) only")
+        else:
+            chk.violation("C11.closing", c, K.short(c), "asyncio.Task(coro, loop=loop, eager_start=True)",
+                          "the task that takes the send lock for a large compressed frame only starts on the next loop iteration: the frame has already passed the `_closing` test, a close() issued in between finds the lock free and writes the Close frame first, and the data frame follows Close on the wire")
+    chk.expect_count("C11.closing.spawn", nsp, 2, "task creations in send_frame()")
     # ---- C11.rx: "however the frames are segmented in transit" - the reader's resumable-state rules are shared with C12 ----
     from rules import C12
 
